@@ -138,6 +138,47 @@ def coq_failing_labels():
     import re
     return re.findall(r'"([^"]+)"', r.stdout)
 
+def wrapper_judge(res, rng, idx, spec, layout_only):
+    """payload-level wrappers vs the Header accessor they must forward to: same image, same arguments -> same bytes, same result"""
+    by_name = {m['name']: m for m in idx['methods']}
+    lines_w, lines_t, meta = [], [], []
+    by_design = {'ASAM::CMP::CanFdPayload::getCrc': 'ASAM::CMP::CanPayloadBase::Header::getCrcSbc',      # as in Refine.wrapper_ok
+                 'ASAM::CMP::CanFdPayload::setCrc': 'ASAM::CMP::CanPayloadBase::Header::setCrcSbc'}
+    for w in idx.get('wrappers', []):
+        w = dict(w, target=by_design.get(w['name'], w['target']))
+        t = by_name.get(w['target'])
+        if t is None or len(t['params']) != w['nparams']:
+            continue
+        size = t['size']
+        masks = sorted(set(int(s_['mask']) for s_ in spec.get(t['name'], []) if s_['mask'] != '-'))
+        if w['nparams'] == 0:
+            args = [(0, 0)]
+        elif w['nparams'] == 1:
+            wd = t['params'][0]
+            args = [(v & ((1 << wd) - 1), 0) for v in ([0, 1, (1 << wd) - 1, 0x5A5A5A5A5A5A5A5A, rng.next()] + masks)]
+        else:
+            args = [(k, v) for k in (masks or [1, 2, 4, 0x80]) for v in (0, 1)]
+        for img in (bytes(size), b'\xff' * size, rng.bytes(size), rng.bytes(size)):
+            for (a1, a2) in args:
+                lines_w.append('FWD %d %d %d %s' % (w['id'], a1, a2, hx(img)))
+                lines_t.append('ACC %d %d %d %d %s' % (t['cls'], t['id'], a1, a2, hx(img)))
+                meta.append((w, a1, a2, img))
+    if not meta:
+        return 0
+    cw, ct = Case('wrappers', lines_w, {}), Case('wrapper-targets', lines_t, {})
+    out = run_harness([cw, ct], tag='fwd')
+    ow, ot = out.get('wrappers', []), out.get('wrapper-targets', [])
+    n = 0
+    for i, (w, a1, a2, img) in enumerate(meta):
+        a = ow[i] if i < len(ow) else 'MISSING'; b = ot[i] if i < len(ot) else 'MISSING'
+        if a != b:
+            n += 1
+            if n <= 2:
+                res.violation('%s%s with argument(s) %d %d on a payload whose header bytes are %s gives "%s", the header accessor %s gives "%s": the wrapper does not forward' % (
+                    'wire layout: ' if layout_only else 'field independence: ', w['name'], a1, a2, hx(img), a, w['target'], b), 'CASE replay\n' + lines_w[i] + '\n' + lines_t[i] + '\n', True, 'judge')
+    res.cov['wrapper_comparisons'] = len(meta)
+    return n
+
 def composite_mask_judge(res, idx, spec, layout_only):
     meths = []
     for m in idx['methods']:
@@ -234,6 +275,7 @@ def run_acc(res, rng, layout_only):
     # prescribes (checked above), a multi-bit enumerator (segmentation field, parity bits) must be its composition
     ncomp = composite_mask_judge(res, idx, spec, layout_only)
     njudge += ncomp
+    njudge += wrapper_judge(res, rng.fork('wrappers'), idx, spec, layout_only)
     an = [(c, l) for c in cases for l in impl.get(c.cid, []) if l.startswith(ANOMALY)]
     for c, l in an[:2]:
         res.violation('accessor run: ' + l, c.text(), True, 'judge')
